@@ -153,7 +153,7 @@ static bool is_compound_literal(Token *tok);
 static Node *unary(Token **rest, Token *tok);
 static Node *primary(Token **rest, Token *tok);
 static Token *parse_typedef(Token *tok, Type *basety);
-static bool is_function(Token *tok);
+static bool is_function(Token *tok, Type *basety);
 static Token *function(Token *tok, Type *basety, VarAttr *attr);
 static Token *global_variable(Token *tok, Type *basety, VarAttr *attr);
 
@@ -1924,7 +1924,7 @@ static Node *compound_stmt(Token **rest, Token *tok) {
         continue;
       }
 
-      if (is_function(tok)) {
+      if (is_function(tok, basety)) {
         tok = function(tok, basety, &attr);
         continue;
       }
@@ -3705,12 +3705,15 @@ static Token *global_variable(Token *tok, Type *basety, VarAttr *attr) {
 
 // Lookahead tokens and returns true if a given token is a start
 // of a function definition or declaration.
-static bool is_function(Token *tok) {
+// True if the next declarator declares a function. The function type
+// may come from the declarator, 'int f(void)', or from the declaration
+// specifiers, 'typedef int F(int); F twice;'.
+static bool is_function(Token *tok, Type *basety) {
   if (equal(tok, ";"))
     return false;
 
   Type dummy = {};
-  Type *ty = declarator(&tok, tok, &dummy);
+  Type *ty = declarator(&tok, tok, basety->kind == TY_FUNC ? basety : &dummy);
   return ty->kind == TY_FUNC;
 }
 
@@ -3773,7 +3776,7 @@ Obj *parse(Token *tok) {
     }
 
     // Function
-    if (is_function(tok)) {
+    if (is_function(tok, basety)) {
       tok = function(tok, basety, &attr);
       continue;
     }
